@@ -24,8 +24,9 @@ theorem C22_only_while_waiting_out : ∀ m, Reach (sysOut benign) m → resendOn
 /-- never two retransmitters for one swap: the summary of SendMessageWithRetryAction refuses when one is
     active (AddSender returns ErrAlreadyHasASender), so the flag is a faithful count -/
 theorem C22_at_most_one (e : Env) (s : St) (f : F) (h : f.resend = true) :
-    outcomes e s [.SendMessageWithRetryAction] f = [(E_ActionFailed, f)] := by
-  simp [outcomes, h]
+    outcomes0 e [.SendMessageWithRetryAction] f = [(E_ActionFailed, f)]
+    ∧ (outcomes e s [.SendMessageWithRetryAction] f).map (·.1) = [E_ActionFailed] := by
+  simp [outcomes, outcomes0, h]
 
 /-! ### the retransmission goroutine after `Stop`
 
